@@ -33,3 +33,26 @@ def observe (copies : Bool) : List Tok → List Obs → List (List Tok) × List 
 def reobsSeq : List Obs := [.jsonPointer, .errorText, .unwrap, .jsonPointer]
 
 end KinModel.Schema
+
+/-! ### keeping an error for the MultiError (the accumulation sites, table `C12Accumulate`) -/
+namespace KinModel.Schema
+
+/-- the dynamic type of a Go error reaching an accumulation site -/
+inductive GoErrKind
+  | schemaError            -- *SchemaError
+  | multi (members : Nat)  -- a nested MultiError with that many members
+  | sentinel               -- errSchema (FailFast), ErrSchemaInputNaN / ErrSchemaInputInf
+  | plain                  -- any other error (unresolved reference, fmt.Errorf …)
+  deriving DecidableEq, Repr
+
+/-- length of `me` after the site, by the shape of the code that follows `if !settings.multiError { return err }`;
+`switch-no-default` is NOT a shape of the code: a type switch with the cases MultiError and *SchemaError only -/
+def keepLen (shape : String) (n : Nat) (e : GoErrKind) : Option Nat :=
+  if shape = "plain" then some (n + 1)
+  else if shape = "flatten-else" ∨ shape = "flatten-continue" then
+    some (match e with | .multi k => n + k | _ => n + 1)
+  else if shape = "switch-no-default" then
+    some (match e with | .multi k => n + k | .schemaError => n + 1 | _ => n)
+  else none
+
+end KinModel.Schema
